@@ -11,7 +11,6 @@
 namespace IRModel.Timer
 
 structure Obj where
-  id       : Nat
   key      : Nat
   toggle   : Nat := 0
   start    : Option Int := none      -- `timer` is a TimerUS started at `start`, or None
@@ -37,12 +36,12 @@ inductive Style
   | toggleReplaces    -- a frame whose toggle differs replaces the held object by an equal one (RC5 style)
 deriving Repr, DecidableEq
 
+/-- code objects are identified by their position in `objs` (order of creation) -/
 structure St where
   now      : Int := 0
   duration : Int                      -- repeat timeout of the protocol (µs)
   style    : Style := .sameObject
   objs     : List Obj := []
-  nextId   : Nat := 0
   decLast  : Option Nat := none       -- decoder._last_code (object id)
   dispLast : Option Nat := none       -- dispatcher._last_code
   timerQ   : List Nat := []           -- TimerThreadWorker.queue (object ids)
@@ -50,8 +49,8 @@ structure St where
   outs     : List Out := []
 deriving Repr
 
-def getObj (s : St) (i : Nat) : Option Obj := s.objs.find? (·.id == i)
-def setObj (s : St) (o : Obj) : St := { s with objs := s.objs.map fun x => if x.id == o.id then o else x }
+def getObj (s : St) (i : Nat) : Option Obj := s.objs[i]?
+def setObj (s : St) (i : Nat) (o : Obj) : St := { s with objs := s.objs.set i o }
 
 /-- `elapsed >= adjusted_duration` -/
 def expired (s : St) (o : Obj) : Bool :=
@@ -68,25 +67,39 @@ def isRunning (s : St) (o : Obj) : Bool := o.start.isSome && !expired s o
 def startTimer (s : St) (i : Nat) (proc : Int) : St :=
   match getObj s i with
   | some o =>
-    let s' := setObj s { o with start := some s.now, padded := true, proc := proc }
+    let s' := setObj s i { o with start := some s.now, padded := true, proc := proc }
     if s'.timerQ.contains i then s' else { s' with timerQ := s'.timerQ ++ [i] }
   | none => s
 
 /-- `Timer.stop()` -/
 def stopTimer (s : St) (i : Nat) : St :=
   match getObj s i with
-  | some o => if o.start.isSome then { (setObj s { o with start := none }) with procQ := s.procQ ++ [.release i] } else s
+  | some o => if o.start.isSome then { (setObj s i { o with start := none }) with procQ := s.procQ ++ [.release i] } else s
   | none => s
+
+/-- what one pass of the timer thread does with queue entry `i`: 0 keep, 1 drop silently, 2 fire -/
+def pollAct (s : St) (i : Nat) : Nat :=
+  match getObj s i with
+  | some o => if o.start.isNone then 1 else if expired s o then 2 else 0
+  | none => 1
 
 /-- one pass of `for timer in self.queue[:]: if timer.run_func(): self.queue.remove(timer)` -/
 def pollTimers (s : St) : St :=
   s.timerQ.foldl (fun st i =>
-    match getObj st i with
-    | some o =>
-      if o.start.isNone then { st with timerQ := st.timerQ.filter (· != i) }
-      else if expired st o then { st with timerQ := st.timerQ.filter (· != i), procQ := st.procQ ++ [.release i] }
-      else st
-    | none => { st with timerQ := st.timerQ.filter (· != i) }) s
+    match pollAct st i with
+    | 0 => st
+    | 1 => { st with timerQ := st.timerQ.filter (· != i) }
+    | _ => { st with timerQ := st.timerQ.filter (· != i), procQ := st.procQ ++ [.release i] }) s
+
+/-- `dispatcher.__reset_last_code(code)`: equality, guarded by is_running, then unbound -/
+def resetLast (s : St) (i : Nat) (o : Obj) : St :=
+  match s.dispLast.bind (getObj s) with
+  | some l =>
+    if l.key == o.key then
+      if isRunning s o then s            -- `return` before the unbind
+      else setObj { s with dispLast := none } i { o with bound := false }
+    else setObj s i { o with bound := false }
+  | none => setObj s i { o with bound := false }
 
 /-- one queued job -/
 def runJob (s : St) : Job → St
@@ -99,67 +112,58 @@ def runJob (s : St) : Job → St
     | some o =>
       -- decoder.reset(code): identity
       let s1 := if s.decLast == some i then { s with decLast := none } else s
-      -- dispatcher.__reset_last_code(code): equality, guarded by is_running, then unbound
-      let s2 :=
-        if o.bound then
-          match s1.dispLast.bind (getObj s1) with
-          | some l =>
-            if l.key == o.key then
-              if isRunning s1 o then s1            -- `return` before the unbind
-              else setObj { s1 with dispLast := none } { o with bound := false }
-            else setObj s1 { o with bound := false }
-          | none => setObj s1 { o with bound := false }
-        else s1
+      let s2 := if o.bound then resetLast s1 i o else s1
       -- user callbacks
       if o.user then { s2 with outs := s2.outs ++ [.released i o.key] } else s2
     | none => s
 
 def drain (s : St) : St := s.procQ.foldl runJob { s with procQ := [] }
 
+def newObj (s : St) (key toggle : Nat) : St × Nat :=
+  ({ s with objs := s.objs ++ [{ key := key, toggle := toggle, start := some s.now }], decLast := some s.objs.length }, s.objs.length)
+
 /-- decoder: a full frame of `key` (with `toggle`) -/
 def decFull (s : St) (key toggle : Nat) : St × Nat :=
-  let held := s.decLast.bind (getObj s)
-  match held with
-  | some l =>
-    if l.key == key && (s.style == .sameObject || l.toggle == toggle) then (s, l.id)
-    else
-      let s1 := stopTimer s l.id
-      let n : Obj := { id := s.nextId, key := key, toggle := toggle, start := some s.now }   -- Timer.__init__ creates a TimerUS
-      ({ s1 with objs := s1.objs ++ [n], nextId := s.nextId + 1, decLast := some n.id }, n.id)
-  | none =>
-    let n : Obj := { id := s.nextId, key := key, toggle := toggle, start := some s.now }
-    ({ s with objs := s.objs ++ [n], nextId := s.nextId + 1, decLast := some n.id }, n.id)
+  match s.decLast with
+  | some d =>
+    match getObj s d with
+    | some l =>
+      if l.key == key && (s.style == .sameObject || l.toggle == toggle) then (s, d)
+      else newObj (stopTimer s d) key toggle       -- Timer.__init__ creates a TimerUS
+    | none => newObj s key toggle
+  | none => newObj s key toggle
+
+/-- the dispatcher takes over the decoder's answer `c` unless it equals the held code -/
+def adopt (s : St) (c : Nat) (lkey : Nat) : St :=
+  match getObj s c with
+  | some co => if co.key == lkey then s else { (setObj s c { co with bound := true }) with dispLast := some c }
+  | none => s
+
+def markUser (s : St) (i : Nat) : St :=
+  match getObj s i with
+  | some co => setObj s i { co with user := true }
+  | none => s
 
 /-- dispatcher `_decode` for one enabled protocol on a full frame; `proc` = processing time measured by the
     dispatcher timer at `start()`; the returned code gets a user release callback bound by the caller -/
 def frame (s : St) (key toggle : Nat) (proc : Int) : St :=
-  let dl := s.dispLast.bind (getObj s)
-  let timingEq : Bool := match dl with | some l => l.key == key && l.toggle == toggle | none => false
-  match dl with
+  match s.dispLast.bind (getObj s) with
   | some l =>
-    if timingEq then
+    if l.key == key && l.toggle == toggle then
       -- `data == self._last_code`: restart the timer, report; the caller gets None
-      let s1 := startTimer s l.id proc
-      { s1 with procQ := s1.procQ ++ [.decoded l.id] }
+      let s1 := startTimer s (s.dispLast.getD 0) proc
+      { s1 with procQ := s1.procQ ++ [.decoded (s.dispLast.getD 0)] }
     else
       let (s1, c) := decFull s key toggle
-      let same : Bool := match getObj s1 c with | some co => co.key == l.key | none => false
-      let s2 := if !same then
-                  (match getObj s1 c with
-                   | some co => { (setObj s1 { co with bound := true }) with dispLast := some c }
-                   | none => s1)
-                else s1
+      let s2 := adopt s1 c l.key
       let cur := s2.dispLast.getD c
       let s3 := startTimer s2 cur proc
-      let s4 := { s3 with procQ := s3.procQ ++ [.decoded cur] }
       -- the user binds a release callback on the code the decode callback delivers (`self._last_code`)
-      match getObj s4 cur with
-      | some co => setObj s4 { co with user := true }
-      | none => s4
+      markUser { s3 with procQ := s3.procQ ++ [.decoded cur] } cur
   | none =>
     let (s1, c) := decFull s key toggle
     let s2 := match getObj s1 c with
-      | some co => { (setObj s1 { co with bound := true, user := true }) with dispLast := some c }
+      | some co => { (setObj s1 c { co with bound := true, user := true }) with dispLast := some c }
       | none => s1
     let s3 := startTimer s2 c proc
     { s3 with procQ := s3.procQ ++ [.decoded c] }
@@ -170,12 +174,7 @@ def repeatFrame (s : St) (proc : Int) : St :=
   match s.dispLast.bind (getObj s), s.decLast with
   | some l, some d =>
     -- held path: decoder returns object d; `code != self._last_code` compares keys
-    let same : Bool := match getObj s d with | some co => co.key == l.key | none => false
-    let s2 := if !same then
-                (match getObj s d with
-                 | some co => { (setObj s { co with bound := true }) with dispLast := some d }
-                 | none => s)
-              else s
+    let s2 := adopt s d l.key
     let cur := s2.dispLast.getD d
     let s3 := startTimer s2 cur proc
     { s3 with procQ := s3.procQ ++ [.decoded cur] }
